@@ -81,7 +81,13 @@ def generate_from_rng(rng, repo_root, tier="thorough", opts=None):
 
 def scenario_for(k, batch_seed, tier, repo_root, opts=None):
     rng = seeds.rng_for(ID, batch_seed, k)
-    return generate(rng, repo_root, "B" if k % 2 else "A", tier, opts)
+    scn = generate(rng, repo_root, "B" if k % 2 else "A", tier, opts)
+    if (opts or {}).get("canary"):
+        scn["canary"] = True
+    return scn
+
+
+CANARY = "one solver answer silently multiplied by (1 + 1e-6) at the first call of a run must fail the step model (A2)"
 
 
 # =========================================================================== step model
@@ -252,6 +258,15 @@ def execute(ns, scn):
     out = Result()
     st = out.stats
     cls = scn["object"]["cls"]
+    if scn.get("canary"):
+        # sensitivity canary: one solver answer silently off by a relative 1e-6 must fail the step model
+        fr = run_once(ns, scn, {0: {"kind": "C-perturb"}})
+        out.log.append(("canary", bool(fr.fired), fr.raised, None if fr.score is None else float(fr.score)))
+        if fr.fired and fr.completed and not (fr.score <= 1.0):
+            out.violations.append({"clause": "canary", "fingerprint": "canary", "detail": {}})
+        elif not fr.fired:
+            out.probe("canary_not_applicable")
+        return out
     base = run_once(ns, scn, None)
     nrec = len(base.records)
     st["solver_calls"] += nrec
